@@ -62,7 +62,7 @@ fn prop_cfg(prop: &str) -> Option<PropCfg> {
         "C13" => PropCfg { level: "exploration", quick_count: 7000, thorough_count: 400000, both_profiles: true, rule: "one run = 4 (program, width, level) triples (families: expression-explosion shapes, nesting 20-200, pressure, raw, corpus, structured); each is built by all four executors (+4 machine-code variants) under catch_unwind in both build profiles, compiled under 4 hash seeds of the bytecode generator's hash containers with 0-3 unrelated programs compiled in between, artefact digests compared across seeds, across processes and across profiles, one check in six is a growth pair (the same construction at size parameter k and 2k: allocator traffic of compilation may grow at most 32-fold), and each executor is run 3 times on fresh contexts at two budgets; non-trivial iff the program has a loop" },
         "C16" => PropCfg { level: "exploration", quick_count: 6000, thorough_count: 200000, both_profiles: false, rule: "one run = 8 generated process scenarios for the real hpbf binary: 1-3 code fragments as bare arguments or -f files in random order, interleaved with width/backend/level flags (0-2 of each, last wins), optionally a print option, --limit (small, huge, or not a number), --static, --time, -h; file faults (missing, directory, non-UTF-8, empty, a multi-byte character split over two files), named pipes as -f sources, multi-byte comment characters straddling 4 KiB..128 KiB offsets, unbalanced source, trailing -f, --static under an address-space limit of 128-400 MiB (abort before running expected); stdin is a generated byte string in a regular file; non-trivial iff the scenario executes a program whose canonical run has >=1 loop iteration and >=1 I/O event" },
         "C17" => PropCfg { level: "fault_enumeration", quick_count: 8000, thorough_count: 200000, both_profiles: false, rule: "one run = one halting roaming scenario x 4 backends; the fault-free run under the guard allocator counts the in-zone allocation requests N (tape growths, bcint context, threaded-code and other Vecs) and then request k is made to return null for every k in 1..=N (24 sampled if N>24), each in a forked child; one scenario in six starts on a tape of 1e5-4e5 cells; one in three adds a far-start check (pointer parked 2^44..2^62 cells away, tiny writing program on each backend, abort or panic expected, a death after the caught panic or an unknown free is the violation); every second run adds a tape history containing a request no allocator can serve (forked child, catch_unwind: abort, or panic with the tape unchanged); non-trivial iff the failure fired" },
-        "C18" => PropCfg { level: "exploration", quick_count: 300000, thorough_count: 5000000, both_profiles: false, rule: "one run = 16 generated histories of 1-40 operations (constructors, push, extend, clear, retain, retain_mut with mutation, dedup, sort, clone, ==, cmp, hash, index, iter, iter_mut, by-value iteration abandoned after j items, drop) over up to 3 vectors with inline capacity 1 or 2, now and then 126..513 elements long, element type u32, a drop-tracked type (with one value that is not equal to itself) or a zero-sized type with a destructor; out-of-range indexing must panic, retain with a predicate that panics at its k-th call must never drop twice, equal vectors in either representation must hash equally under std SipHash and hpbf's FastHasher; slice view compared with a Vec model after every operation, drop ledger at the end; non-trivial iff some vector crossed the inline/heap boundary and at least one removing operation ran" },
+        "C18" => PropCfg { level: "exploration", quick_count: 300000, thorough_count: 2000000, both_profiles: false, rule: "one run = 16 generated histories of 1-40 operations (constructors, push, extend, clear, retain, retain_mut with mutation, dedup, sort, clone, ==, cmp, hash, index, iter, iter_mut, by-value iteration abandoned after j items, drop) over up to 3 vectors with inline capacity 1 or 2, now and then 126..513 elements long, element type u32, a drop-tracked type (with one value that is not equal to itself) or a zero-sized type with a destructor; out-of-range indexing must panic, retain with a predicate that panics at its k-th call must never drop twice, equal vectors in either representation must hash equally under std SipHash and hpbf's FastHasher; slice view compared with a Vec model after every operation, drop ledger at the end; non-trivial iff some vector crossed the inline/heap boundary and at least one removing operation ran" },
         _ => return None,
     })
 }
